@@ -2271,7 +2271,7 @@ int main(int argc, char **argv)
 		   "unreg_of_due=%llu handler_changes=%llu reinstall_while_ready=%llu tfd_engaged_cases=%llu multi_timer_iters=%llu "
 		   "failed_reg=%llu quits=%llu reenters=%llu deadline_checks=%llu rk_nonempty=%llu b_obligations=%llu eintr_seen=%llu "
 		   "sig_raised=%llu ev_posts=%llu raw_posts=%llu actions=%llu frees_in_handler=%llu struct_reuse=%llu hyg_checks=%llu "
-		   "stim_applied=%llu pop_cases=%llu pop_max=%llu max_timers=%llu quiescences=%llu time_advances=%llu timerfd_fires=%llu injected=%llu violations=%d\n",
+		   "stim_applied=%llu pop_cases=%llu pop_max=%llu max_timers=%llu quiescences=%llu time_advances=%llu timerfd_fires=%llu injected=%llu successful_calls_leaving_stale_errno=%llu violations=%d\n",
 		   g_method, (unsigned long long)S.cases, (unsigned long long)S.waits,
 		   (unsigned long long)S.cb[K_FD], (unsigned long long)S.cb[K_TIMER], (unsigned long long)S.cb[K_TASK],
 		   (unsigned long long)S.cb[K_EVENT], (unsigned long long)S.cb[K_RAW], (unsigned long long)S.cb[K_SIG],
@@ -2286,7 +2286,7 @@ int main(int argc, char **argv)
 		   (unsigned long long)S.hyg_checks, (unsigned long long)S.stim_applied,
 		   (unsigned long long)S.pop_cases, (unsigned long long)S.pop_max, (unsigned long long)S.max_timers,
 		   (unsigned long long)vt_stats.quiescences, (unsigned long long)vt_stats.time_advances,
-		   (unsigned long long)vt_stats.timerfd_fires, (unsigned long long)vt_stats.injected, mon_viol_total);
+		   (unsigned long long)vt_stats.timerfd_fires, (unsigned long long)vt_stats.injected, (unsigned long long)vt_stats.stale_errno, mon_viol_total);
 	for (k = 0; k < 8; k++)
 		mon_printf("STAT nt_prop=%d nontrivial=%llu distinct=%llu\n", k, (unsigned long long)S.nt[k], (unsigned long long)sigs_count[k]);
 	mon_printf("DONE\n");
